@@ -117,3 +117,111 @@ func init() {
 		return "same " + toHex(h[:8])
 	})
 }
+
+// c18.retain <kind> ...: purity of serializers with respect to memory they hand out or are handed:
+//   a result kept by the caller is not changed by later calls (no pooled / package-level buffer escapes),
+//   a result scribbled over by the caller does not change later outputs,
+//   bytes of the caller's input beyond len(input) (spare capacity) are not written.
+// Deterministic, single goroutine. Prints "same" or a description of what changed.
+func init() {
+	scribble := func(b []byte) {
+		for i := range b {
+			b[i] = 0xEE
+		}
+	}
+	clone := func(b []byte) []byte { return append([]byte{}, b...) }
+	register("c18.retain", func(args []string) string {
+		switch args[0] {
+		case "subset":
+			s1, s2 := parseSubset(args[1]), parseSubset(args[2])
+			r1, err := s1.Encode()
+			if err != nil {
+				return "inputerr"
+			}
+			c1 := clone(r1)
+			r2, err := s2.Encode()
+			if err != nil {
+				return "inputerr"
+			}
+			if !bytes.Equal(r1, c1) {
+				return "first-result-changed-by-second-call"
+			}
+			scribble(r2)
+			r3, _ := s1.Encode()
+			if !bytes.Equal(r3, c1) {
+				return "output-changed-after-caller-modified-earlier-result"
+			}
+			if !bytes.Equal(r1, c1) {
+				return "first-result-changed-by-third-call"
+			}
+			return "same"
+		case "magic":
+			v := bundleVersion(args[1])
+			r1 := v.HeaderMagicBytes()
+			c1 := clone(r1)
+			r2 := v.HeaderMagicBytes()
+			scribble(r2)
+			if !bytes.Equal(r1, c1) {
+				return "first-result-aliases-second"
+			}
+			scribble(r1)
+			r3 := v.HeaderMagicBytes()
+			if !bytes.Equal(r3, c1) {
+				return "magic-bytes-changed-after-caller-modified-a-result"
+			}
+			b, _ := parseBundle(args[2:])
+			var buf bytes.Buffer
+			if _, err := b.WriteTo(&buf); err != nil {
+				return "inputerr"
+			}
+			if !bytes.HasPrefix(buf.Bytes(), c1) {
+				return "bundle-does-not-start-with-the-magic-bytes"
+			}
+			return "same"
+		case "ib":
+			blk := parseBlock(args[1])
+			r1, err := blk.CborBytes()
+			if err != nil {
+				return "inputerr"
+			}
+			c1 := clone(r1)
+			r2, _ := blk.CborBytes()
+			scribble(r2)
+			r3, _ := blk.CborBytes()
+			if !bytes.Equal(r1, c1) || !bytes.Equal(r3, c1) {
+				return "integrity-block-bytes-alias"
+			}
+			return "same"
+		case "mice":
+			enc := miceEnc(args[1])
+			rs, _ := strconv.Atoi(args[2])
+			payload := ofHex(args[3])
+			// the payload is a prefix of a larger buffer: bytes behind it belong to somebody else
+			back := make([]byte, len(payload)+64)
+			copy(back, payload)
+			for i := len(payload); i < len(back); i++ {
+				back[i] = 0x5A
+			}
+			in := back[:len(payload)]
+			var w1, w2 bytes.Buffer
+			d1, err := enc.Encode(&w1, in, rs)
+			if err != nil {
+				return "inputerr"
+			}
+			for i := len(payload); i < len(back); i++ {
+				if back[i] != 0x5A {
+					return fmt.Sprintf("encoder-wrote-behind-its-input at +%d", i-len(payload))
+				}
+			}
+			if !bytes.Equal(in, payload) {
+				return "encoder-modified-its-input"
+			}
+			d2, _ := enc.Encode(&w2, payload, rs)
+			if d1 != d2 || !bytes.Equal(w1.Bytes(), w2.Bytes()) {
+				return "output-depends-on-spare-capacity"
+			}
+			return "same"
+		}
+		panic("bad-op")
+	})
+}
